@@ -125,7 +125,7 @@ func runC13(p *core.Program, r *core.Report) {
 	runPairs(p, x, r, pairs, pairRules{"C13.serial", "", ""}, 3)
 	for _, n := range []string{"LinkedList", "zzCanaryLinked"} {
 		if t := listNamed(p, n); t != nil {
-			c13Linked(p, r, t)
+			c13Linked(p, r, t, "C13.linked")
 		}
 	}
 }
@@ -136,8 +136,8 @@ func simplePaths(fi *core.FuncInfo, classify func(ast.Node) []paths.Event) ([]pa
 		Info:     fi.Pkg.TypesInfo,
 		Classify: classify,
 		Cond: func(c ast.Expr, v bool) *paths.Event {
-			s := strings.ReplaceAll(stripSpaces(types.ExprString(c)), rn+".", "")
-			return &paths.Event{Kind: "COND", Arg: fmt.Sprintf("%s=%v", s, v), Pos: c.Pos()}
+			norm := func(e ast.Expr) string { return strings.ReplaceAll(stripSpaces(types.ExprString(e)), rn+".", "") }
+			return &paths.Event{Kind: "COND", Arg: condKey(fi.Pkg.TypesInfo, norm, c, v), Pos: c.Pos()}
 		},
 	})
 }
@@ -224,35 +224,124 @@ func c13Bounds(p *core.Program, r *core.Report, t *types.Named) {
 			}
 			r.Check(ok, "C13.bounds", tn+".add", pos, "ensure(size+1); table[size]=e; size++", why)
 		case "ensure":
-			var grow, clamp, cp, assign bool
-			ast.Inspect(fi.Decl.Body, func(m ast.Node) bool {
+			// Path rule: whenever ensure(min) returns, the table holds at least `min` slots and the old
+			// contents. On every path that installs a new table: it was made with a size N that the path
+			// shows to be >= the requested capacity (N was assigned from it, or `N < min` was tested false
+			// after N's last change), the requested capacity itself was not lowered on the way, and the
+			// old contents were copied in before the install. Paths that install nothing must have found
+			// the table large enough.
+			info := fi.Pkg.TypesInfo
+			if fi.Decl.Type.Params.NumFields() != 1 {
+				r.Undec("C13.bounds", tn+".ensure", pos, "unexpected signature")
+				continue
+			}
+			pid := fi.Decl.Type.Params.List[0].Names[0]
+			pobj := info.Defs[pid]
+			pn := pid.Name
+			ps, over := simplePaths(fi, func(m ast.Node) []paths.Event {
+				var out []paths.Event
 				switch v := m.(type) {
 				case *ast.AssignStmt:
-					if len(v.Lhs) == 1 && len(v.Rhs) == 1 {
-						l, rr := norm(v.Lhs[0]), norm(v.Rhs[0])
-						if l == "newSize" && (rr == "oldSize+(oldSize>>1)" || rr == "oldSize+oldSize>>1" || rr == "oldSize+oldSize/2" || rr == "oldSize*2") {
-							grow = true
-						}
-						if l == "newSize" && rr == "minCapacity" {
-							clamp = true
-						}
-						if l == "table" && rr == "newTable" {
-							assign = true
+					if len(v.Lhs) == len(v.Rhs) {
+						for i, l := range v.Lhs {
+							ls, rs := norm(l), norm(v.Rhs[i])
+							if ls == "table" {
+								out = append(out, paths.Event{Kind: "INSTALL", Arg: rs, Pos: v.Pos(), Node: v.Rhs[i]})
+							} else if _, isId := l.(*ast.Ident); isId {
+								out = append(out, paths.Event{Kind: "ASSIGN", Arg: ls + "=" + rs, Pos: v.Pos(), Node: v.Rhs[i]})
+							}
 						}
 					}
-				case *ast.CallExpr:
-					if id, ok := v.Fun.(*ast.Ident); ok && id.Name == "copy" && len(v.Args) == 2 && norm(v.Args[0]) == "newTable" && norm(v.Args[1]) == "table" {
-						cp = true
-					}
-				case *ast.IfStmt:
-					if norm(v.Cond) == "newSize<minCapacity" {
-						// clamp is inside
+				case *ast.ExprStmt:
+					if call, ok := v.X.(*ast.CallExpr); ok {
+						if id, ok := call.Fun.(*ast.Ident); ok && id.Name == "copy" && len(call.Args) == 2 {
+							out = append(out, paths.Event{Kind: "COPY", Arg: norm(call.Args[0]) + "<-" + norm(call.Args[1]), Pos: v.Pos()})
+						}
 					}
 				}
-				return true
+				return out
 			})
-			r.Check(grow && clamp && cp && assign, "C13.bounds", tn+".ensure", pos, "newSize = max(1.5*old, minCapacity); old contents copied; table replaced",
-				fmt.Sprintf("growth does not guarantee the requested capacity with contents preserved (growth=%v, clamp to minCapacity=%v, copy=%v, install=%v)", grow, clamp, cp, assign))
+			if over {
+				r.Undec("C13.bounds", tn+".ensure", pos, "too many paths")
+				continue
+			}
+			var probs []string
+			installs := 0
+			for _, pa := range ps {
+				if pa.Has("PANIC") {
+					continue
+				}
+				ii := pa.Index("INSTALL")
+				if ii < 0 {
+					// nothing installed: the table must have been found large enough
+					if !(pa.HasArg("COND", cc(pn, ">", "len(table)", false)) || pa.HasArg("COND", cc("len(table)", "<", pn, false)) || pa.HasArg("COND", cc("len(table)", ">=", pn, true)) || pa.HasArg("COND", cc("cap(table)", ">=", pn, true))) {
+						probs = append(probs, "returns without growing on a path that did not find the table large enough: "+pa.String())
+					}
+					continue
+				}
+				installs++
+				// the requested capacity must not be lowered before it is used
+				for _, e := range pa[:ii] {
+					if e.Kind == "ASSIGN" && strings.HasPrefix(e.Arg, pn+"=") {
+						rhs := strings.TrimPrefix(e.Arg, pn+"=")
+						if !(strings.Contains(rhs, "math.Max(") || strings.HasPrefix(rhs, "max(")) {
+							probs = append(probs, "the requested capacity "+pn+" is overwritten with `"+rhs+"`, which can be smaller than what the caller asked for: the caller then stores beyond the table")
+						}
+					}
+				}
+				newT := pa[ii].Arg
+				// the size the new table was made with
+				var sizeExpr ast.Expr
+				if id, ok := ast.Unparen(pa[ii].Node.(ast.Expr)).(*ast.Ident); ok {
+					sizeExpr = wire.MadeLenExpr(info, fi.Decl.Body, id)
+				} else if call, ok := ast.Unparen(pa[ii].Node.(ast.Expr)).(*ast.CallExpr); ok {
+					if fid, ok := call.Fun.(*ast.Ident); ok && fid.Name == "make" && len(call.Args) >= 2 {
+						sizeExpr = call.Args[1]
+					}
+				}
+				if sizeExpr == nil {
+					probs = append(probs, "the installed table `"+newT+"` is not a freshly made slice of a known size")
+					continue
+				}
+				sz := norm(sizeExpr)
+				okSize := sz == pn
+				if !okSize {
+					last := -1
+					for i, e := range pa[:ii] {
+						if e.Kind == "ASSIGN" && strings.HasPrefix(e.Arg, sz+"=") {
+							// a clamp to a constant upper bound under `sz > const` does not lower the guarantee we need
+							rhs := strings.TrimPrefix(e.Arg, sz+"=")
+							if pa.HasArg("COND", cc(sz, ">", rhs, true)) {
+								continue
+							}
+							last = i
+							okSize = rhs == pn
+						}
+					}
+					for i, e := range pa[:ii] {
+						if i > last && e.Kind == "COND" && e.Arg == cc(sz, "<", pn, false) {
+							okSize = true
+						}
+					}
+				}
+				if !okSize {
+					probs = append(probs, "a table of "+sz+" slots is installed on a path that never establishes "+sz+" >= "+pn+" (the requested capacity): the caller then stores beyond the table: "+pa.String())
+				}
+				cpOK := false
+				for _, e := range pa[:ii] {
+					if e.Kind == "COPY" && e.Arg == newT+"<-table" {
+						cpOK = true
+					}
+				}
+				if !cpOK {
+					probs = append(probs, "the old contents are not copied into the new table before it is installed")
+				}
+			}
+			if installs == 0 {
+				probs = append(probs, "no path installs a larger table")
+			}
+			_ = pobj
+			fileProbs(r, "C13.bounds", tn+".ensure", pos, uniq(probs), "grows to at least the requested capacity; old contents copied; table replaced")
 		}
 	}
 }
@@ -583,7 +672,7 @@ func c13Filter(p *core.Program, r *core.Report, t *types.Named) {
 }
 
 // c13Linked: pointer/size consistency of the linked list on every path.
-func c13Linked(p *core.Program, r *core.Report, t *types.Named) {
+func c13Linked(p *core.Program, r *core.Report, t *types.Named, rule string) {
 	tn := "util/list." + t.Obj().Name()
 	for _, fi := range p.MethodsOf(t) {
 		if fi.Decl.Body == nil {
@@ -650,6 +739,8 @@ func c13Linked(p *core.Program, r *core.Report, t *types.Named) {
 				return false
 			}
 			switch {
+			case (setFirst == "nil") != (setLast == "nil") && !headRemoved && !tailRemoved:
+				probs = append(probs, "one end of the list is reset to nil while the other keeps pointing at a dropped node: later insertions are linked behind the dead node and can never be reached from the head")
 			case cleared:
 				if !pa.HasArg("SIZE", "=0") {
 					probs = append(probs, "first/last cleared without size = 0")
@@ -697,9 +788,9 @@ func c13Linked(p *core.Program, r *core.Report, t *types.Named) {
 			}
 		}
 		if len(probs) > 0 {
-			r.Viol("C13.linked", c, pos, strings.Join(uniq(probs), "; "))
+			r.Viol(rule, c, pos, strings.Join(uniq(probs), "; "))
 		} else {
-			r.OK("C13.linked", c, pos, fmt.Sprintf("%d paths keep first/last/size consistent", len(ps)))
+			r.OK(rule, c, pos, fmt.Sprintf("%d paths keep first/last/size consistent", len(ps)))
 		}
 	}
 }
